@@ -463,8 +463,9 @@ class H3Pair:
     def _to_proxy(self, peer, label):
         from mitmproxy.proxy.layers import quic
         conn = self.w.conns.get(label)
+        if conn is None or conn not in self.w.transports:
+            return                 # not connected (yet): what the peer has to say stays buffered in its H3 connection
         for c in peer.transmit():
-            if conn is None or conn not in self.w.transports: continue
             if isinstance(c, quic.SendQuicStreamData): self.w.deliver(quic.QuicStreamDataReceived(conn, c.stream_id, c.data, c.end_stream))
             elif isinstance(c, quic.ResetQuicStream): self.w.deliver(quic.QuicStreamReset(conn, c.stream_id, c.error_code))
             elif isinstance(c, quic.StopSendingQuicStream): self.w.deliver(quic.QuicStreamStopSending(conn, c.stream_id, c.error_code))
@@ -749,11 +750,13 @@ class Check(PropertyCheck):
                   "carry RequestTrailers/ResponseTrailers, so HTTP/2 histories (multiplexed streams, trailers, resets, early "
                   "responses) are admissible histories too: the six `_http2` theorems hold without a grammar hypothesis, and "
                   "HTTP/2 client/server runs are tied to the model per stream exactly like HTTP/1 (outputs, final state, "
-                  "adm=1, settled).")
+                  "adm=1, settled).  HTTP/3: Http3Server/Http3Client are driven offline by an HTTP/3 client and server "
+                  "exchanging QUIC stream events with them; the same skeletons, faults and policies are run, judged by the "
+                  "oracle and tied to the model per stream like HTTP/2 (`_http3` theorems).")
     level_note = ("trusted: Lean kernel; hand-written model (validated differentially, ~0 mismatches on >10^5 scripts); the "
                   "emitter model of Http1Server/Http1Client/HttpLayer is itself a hand-written abstraction, tied by checking "
                   "that every real per-stream event sequence is one it can produce (not by a proof about those classes); "
-                  "HTTP/1 and HTTP/2 are tied (HTTP/3 shares HttpStream and the emitter but is not run); options websocket/rawtcp at their defaults; regular mode; runs in which an "
+                  "HTTP/1, HTTP/2 and HTTP/3 are tied (HTTP/3 without the QUIC/TLS layers: the peers speak QUIC stream events directly to Http3Server/Http3Client, a closed connection is reported as QuicConnectionClosed); options websocket/rawtcp at their defaults; regular mode; runs in which an "
                   "exception raised OUTSIDE HttpStream (Http1Server/HttpLayer/server assertions) abandons a suspended "
                   "stream generator are judged by the direct oracle only, not compared with the model.")
     technique = ("Lean 4 proof (inductive invariant over all input histories of the HttpStream model + trace monitor) "
@@ -764,7 +767,7 @@ class Check(PropertyCheck):
             "options × addon policy per hook and flow (pass/kill/set response/enable streaming, each optionally "
             "intercepted and resumed at a later step or after everything closed) × immediate/deferred connects; plus "
             "7 HTTP/2 client/server skeletons (multiplexed streams, split bodies, trailers, early response) × stream "
-            "reset / connection close / connect failure at every step × the same policies (oracle + model tie). "
+            "reset / connection close / connect failure at every step × the same policies, each also as an HTTP/3 client/server pair (oracle + model tie). "
             "distinct = distinct (script, policy, defer, connect, options); non-trivial = at least one flow fired "
             "requestheaders.")
     budget = {"quick": 9000, "thorough": 400000}
